@@ -15,7 +15,8 @@ CLAIMED = {
             "4 enqueue timings, clock advances) is executed on the real broker code and compared with a reference "
             "model after every operation; every distinct (state, operation) pair is additionally cancelled at each "
             "of its loop iterations and must end in the pre- or post-state (a terminal call left in the pre-state must "
-            "work when repeated), and re-run with every single server-timing deviation followed by a drain epilogue.",
+            "work when repeated), and re-run with every single server-timing deviation followed by a drain epilogue; four non-initial start states that leave consumer-private memory behind (a delivered "
+            "message settled by nack / reject / requeue / ack) are roots of further searches 3 (4) steps deep.",
             FAKES + " Bounded: depth 5 (quick) / 6-7 (thorough); states merged on a canonical key.", "DESIGN.md 4 C01"),
     "C02": ("model_checking", "exhaustive scenario matrix, each cell one deterministic worker run with a broker-call spy",
             "Full product of 37 actor behaviours x retry budget x attempts x recurring x result storing x both "
@@ -23,7 +24,7 @@ CLAIMED = {
             "delivery exactly one terminal broker call of the predicted kind, actor invoked once, final place per model.",
             FAKES + " cron recurrences excluded (croniter not installed).", "DESIGN.md 4 C02"),
     "C03": ("model_checking", "stop-signal sweep over every loop iteration x one time slip, real worker on three brokers",
-            "For every scenario (broker x graceful period x actor kind x load) SIGTERM is delivered at the select phase "
+            "For every scenario (broker x graceful period x actor kind, including one that swallows the cancellation, x load) SIGTERM is delivered at the select phase "
             "of every loop iteration of the run, alone and combined with one time slip (a timer firing in the middle "
             "of the shutdown chain) within 16 iterations; after run() returned and the loop settled every message must "
             "rest in a state the lifecycle model allows, nothing in flight, run() back within grace + 6.5 s. One scenario "
@@ -40,7 +41,8 @@ CLAIMED = {
     "C06": ("model_checking", "all duration sequences x outcomes x first-run settings, real Job + Worker over several iterations",
             "Every sequence of actor durations from {0,.3p,.7p,1.2p,2.6p} of length 3 (4 thorough) x outcome pattern x "
             "deferred_until setting x period: exactly one successor per iteration, counter 0, timestamp restarted, "
-            "now < next <= now+p, next >= previous scheduled time + p, never started before its scheduled time.",
+            "now < next <= now+p, next >= previous scheduled time + p, never started before its scheduled time; "
+            "every pair of durations again with results stored, the result store working or down for the whole run.",
             FAKES + " cron recurrences excluded (croniter not installed).", "DESIGN.md 4 C06"),
     "C10": ("model_checking", "exhaustive matrix M x backlog x durations x tasks_limit x queues x broker, plus testing plugin",
             "Each cell is a real Worker.run() that has to stop by itself: executions started <= M, run() returns after "
@@ -52,14 +54,16 @@ CLAIMED = {
             "Due offsets from the past to 100 years x 4 positions inside the clock second x 5 consumer modes, all "
             "ordered delay pairs, and the enqueue instant swept over a polling period: a normal consumer never gets "
             "the message earlier than 1 ms before its due time, gets it within L afterwards, and before that only the "
-            "delayed category shows it.",
+            "delayed category shows it; the same for an explicit due time on a message that also carries a period "
+            "(retry back-off of a recurring job).",
             FAKES + " L = 2.5 s (in-memory, Redis), 0.5 s (RabbitMQ). Far-future cases step the wall clock.", "DESIGN.md 4 C05"),
     "C12": ("model_checking", "exhaustive grid ttl x delivery instant around the expiry x message kind x broker",
             "A worker starts listening exactly at expiry -0.5 s, -1 ms, 0, +1 ms, +0.5 s for immediate, delayed, retried "
             "and rescheduled messages; a per-iteration monitor records when the message is dead-lettered: never "
             "executed after expiry, never dead-lettered at or before it, expired messages readable from the dead category; "
             "with the dead-lettering call failing once the message is still never executed; the grid is repeated with the "
-            "process 9 h east and 5 h west of UTC.",
+            "process 9 h east and 5 h west of UTC; every backlog word of length 2-4 (5) over {expired, live, no ttl} found by "
+            "a starting worker: no expired message runs, each is readable from the dead category, every live one runs once.",
             FAKES, "DESIGN.md 4 C12"),
     "C14": ("model_checking", "start/stop sweeps over every iteration + deviation-bounded search over server request order and stalls",
             "Two consumers and two workers on one queue (1-3 messages): the second participant starts, and the first "
@@ -74,14 +78,14 @@ CLAIMED = {
             "at random; every consume() must return a message the FIFO model allows (order within a priority).",
             FAKES + " Delayed-then-due messages are outside the order oracle.", "DESIGN.md 4 C15"),
     "C13": ("fault_enumeration", "scenario matrix x exhaustive enumeration of failing result-bucket calls (up to 2) with a fault-free twin",
-            "Execution chains (single, retry, recurring, eager) x values / exceptions x storing on/off x ttl x bucket "
+            "Execution chains (single, retry, recurring, eager, eager with a raising user callback registered first) x values / exceptions x storing on/off x ttl x bucket "
             "broker; every result-bucket call is a choice point succeed/raise, all subsets of at most two faults are "
             "run: fault-free Job.result equals the last finished execution's outcome; with faults the broker calls and "
             "final places equal the fault-free twin and the bystander job completes; nothing written when disabled.",
             FAKES + " A failing bucket call raises before anything is written.", "DESIGN.md 4 C13"),
     "C16": ("model_checking", "exhaustive call sequences on real Message handles with a broker-boundary spy",
             "All sequences up to length 3 (4) of the six message-API actions on messages from every category and retry "
-            "state on all brokers, and inside actors all sequences over add_callback/set_result/set_exception followed "
+            "state on all brokers, and inside actors all sequences over add_callback (well-behaved or raising)/set_result/set_exception followed "
             "by each eager response: one action succeeds, later ones raise and cause no broker call, refusals leave the "
             "handle usable, callbacks in order with the store at the latest set_*, trailing code never runs, a retry "
             "through a handle without a delay is due at once.",
